@@ -9,7 +9,7 @@
        the current value is never the head);
      - padding cells have rank 0 in both planes and are never written;
      - image-plane values only grow, stay below the mask plane; the mask plane is constant. *)
-From Coq Require Import ZArith List Bool.
+From Coq Require Import ZArith List Bool FMapPositive.
 From Centro Require Import Base.Sx Model.Recon.
 Import ListNotations.
 Open Scope Z_scope.
@@ -97,3 +97,84 @@ Definition entry_prep_check (x : sx) : sx :=
                          prep_check (prepare_offs image mask fp (fp_offsets_at fp o0 o1)))
   | _ => of_bool (accepted image mask fp && prep_check (prepare image mask fp))
   end.
+
+(* ------------------------------------------------------------------ round 3: the order invariant.
+   Ghost positions [pos] (integers; doubled at every relink so that a moved node fits strictly
+   between its new neighbours) replace an explicit list: everything is pointwise.
+   - next is the immediate successor in position order (o_nx, o_gap), positions are injective,
+     cell 2S-1 is last;
+   - values are sorted by position (o_val) — the list is value-sorted;
+   - prev/next are mutually consistent (o_pn, o_np);
+   - every interior image node before [cur] (all of them once cur = -1) is final: no dilate-and-clip
+     step along any stride can raise its neighbour any more (o_done). *)
+Definition closed_at (g : geom) (strides : list Z) (s : st) (p : Z) : Prop :=
+  forall sd, In sd strides ->
+    Z.min (sel (vals s) (p + sd + gS g)) (sel (vals s) p) <= sel (vals s) (p + sd).
+
+Record Ord (g : geom) (strides : list Z) (s : st) (cur : Z) (pos : Z -> Z) : Prop := mkOrd {
+  o_inj : forall x y, 0 <= x < 2 * gS g -> 0 <= y < 2 * gS g -> pos x = pos y -> x = y;
+  o_nx : forall x, 0 <= x < 2 * gS g -> sel (nxt s) x <> -1 -> pos x < pos (sel (nxt s) x);
+  o_gap : forall x y, 0 <= x < 2 * gS g -> 0 <= y < 2 * gS g -> sel (nxt s) x <> -1 ->
+          ~ (pos x < pos y < pos (sel (nxt s) x));
+  o_last : forall x, 0 <= x < 2 * gS g - 1 -> pos x < pos (2 * gS g - 1);
+  o_val : forall x y, 0 <= x < 2 * gS g -> 0 <= y < 2 * gS g -> pos x < pos y ->
+          sel (vals s) y <= sel (vals s) x;
+  o_pn : forall x, 0 <= x < 2 * gS g -> sel (prv s) x <> -1 -> sel (nxt s) (sel (prv s) x) = x;
+  o_np : forall x, 0 <= x < 2 * gS g -> sel (nxt s) x <> -1 -> sel (prv s) (sel (nxt s) x) = x;
+  o_done : forall p, 0 <= p < gS g -> interior_b g p = true -> (cur = -1 \/ pos p < pos cur) ->
+           closed_at g strides s p }.
+
+(* the state after one execution of the loop body, in closed form *)
+Definition relinked (S cur cv : Z) (s : st) (stride : Z) : st :=
+  let nb := cur + stride in
+  let nv := sel (vals s) nb in
+  let mv := sel (vals s) (nb + S) in
+  if (nv <? cv) && (nv <? mv) then
+    let link := if mv <? cv then nb + S else cur in
+    let newv := if mv <? cv then mv else cv in
+    let nprev := sel (prv s) nb in
+    let nnext := sel (nxt s) nb in
+    let nxt1 := put (nxt s) nprev nnext in
+    let prv1 := put (prv s) nnext nprev in
+    let nnext2 := sel nxt1 link in
+    mkst (put (vals s) nb newv) (put (put prv1 nb link) nnext2 nb)
+         (put (put nxt1 nb nnext2) link nb) (drops s)
+  else s.
+
+(* boolean form of Ord for a position table given as an array (quadratic; used for the Example and
+   evaluated per instance on small cases) *)
+Definition ord_check (g : geom) (strides : list Z) (s : st) (cur : Z) (posa : arr) : bool :=
+  let n := 2 * gS g in
+  let pos := sel posa in
+  forallb (fun x =>
+    ((sel (nxt s) x =? -1) || (pos x <? pos (sel (nxt s) x))) &&
+    ((x =? n - 1) || (pos x <? pos (n - 1))) &&
+    ((sel (prv s) x =? -1) || (sel (nxt s) (sel (prv s) x) =? x)) &&
+    ((sel (nxt s) x =? -1) || (sel (prv s) (sel (nxt s) x) =? x)) &&
+    forallb (fun y =>
+      (negb (pos x =? pos y) || (x =? y)) &&
+      ((sel (nxt s) x =? -1) || negb ((pos x <? pos y) && (pos y <? pos (sel (nxt s) x)))) &&
+      (negb (pos x <? pos y) || (sel (vals s) y <=? sel (vals s) x))) (zrange n)) (zrange n) &&
+  forallb (fun p =>
+    negb (interior_b g p) || negb ((cur =? -1) || (pos p <? pos cur)) ||
+    forallb (fun sd => Z.min (sel (vals s) (p + sd + gS g)) (sel (vals s) p) <=? sel (vals s) (p + sd)) strides)
+    (zrange (gS g)).
+
+(* positions of the set-up state: the index in the lexsort order *)
+Definition order_pos (order : list Z) : arr :=
+  fold_left (fun a xi => put a (fst xi) (snd xi)) (combine order (zrange (zlen order))) (PositiveMap.empty Z).
+
+(* (image mask footprint offset) -> bool : the set-up state satisfies Ord with these positions *)
+Definition entry_ord_check (x : sx) : sx :=
+  let image := as_Zss (arg 0 x) in
+  let mask := as_Zss (arg 1 x) in
+  let fp := as_boolss (arg 2 x) in
+  let p := match as_Zs (arg 3 x) with
+           | [o0; o1] => prepare_offs image mask fp (fp_offsets_at fp o0 o1)
+           | _ => prepare image mask fp
+           end in
+  let order := map snd (Base.ReconSort.DescSort.sort
+                 (combine (padded_plane (p_H p) (p_W p) (p_p0 p) (p_p1 p) (img_min image) image ++
+                           padded_plane (p_H p) (p_W p) (p_p0 p) (p_p1 p) (img_min image) mask)
+                          (zrange (2 * p_S p)))) in
+  of_bool (ord_check (prep_geom p) (p_strides p) (p_st p) (p_cur p) (order_pos order)).
